@@ -80,7 +80,7 @@ func convOp(a []string) string {
 	return hx(canonFloats(dst, mio.CastToByteSlice(cs.GetColumn("v"))))
 }
 
-func parseShapes(s string) []mio.DataShape {
+func parseShapesCoerce(s string) []mio.DataShape {
 	if s == "-" || s == "" {
 		return nil
 	}
@@ -105,7 +105,7 @@ func showShapes(l []mio.DataShape) string {
 }
 
 func gmOp(a []string) string {
-	m, c, err := mio.GetMissingAndTypeCoercionColumns(parseShapes(a[0]), parseShapes(a[1]))
+	m, c, err := mio.GetMissingAndTypeCoercionColumns(parseShapesCoerce(a[0]), parseShapesCoerce(a[1]))
 	if err != nil {
 		return "err:emptyset"
 	}
